@@ -290,6 +290,8 @@ const MUTATIONS: &[&str] = &[
     "var-fewer-list-levels", "var-fewer-list-levels", "var-fewer-list-levels",
     // a field whose unwrapped type is a union (possibly a list of it) selected without a selection set
     "union-without-selection", "union-without-selection",
+    // a fragment on an interface, used in the scope of an implementing object, selects a field only the object has
+    "object-field-in-interface-fragment", "object-field-in-interface-fragment",
 ];
 
 fn inject(rng: &mut Rng, s: &Schema, doc: &mut Doc, kind: &str) -> Option<Fault> {
@@ -629,6 +631,44 @@ fn inject(rng: &mut Rng, s: &Schema, doc: &mut Doc, kind: &str) -> Option<Fault>
                 return Some(Fault { rule: "none (valid)", what: format!("{}({}: {}) with {}: {} at {}", f.name, a.name, v, a.name, a.ty.render(), describe(doc, &id)), site: Site::Slot(id) });
             }
             None
+        }
+        "object-field-in-interface-fragment" => {
+            // (slot whose parent is an object O, interface I that O implements, field of O that I does not have)
+            let mut cands: Vec<(&Slot, String, Field)> = vec![];
+            for sl in slots.iter().filter(|sl| typed(sl)) {
+                let o = sl.parent.as_ref().unwrap();
+                let implements = match s.get(o) { Some(TypeDef { kind: Kind::Object { implements, .. }, .. }) => implements.clone(), _ => continue };
+                for i in implements.iter().filter(|i| is_interface(s, i)) {
+                    for f in s.fields_of(o) { if !s.fields_of(i).iter().any(|g| g.name == f.name) { cands.push((sl, i.clone(), f.clone())); } }
+                }
+            }
+            if cands.is_empty() { return None; }
+            let (sl, iface, f) = rng.pick(&cands).clone();
+            let id = sl.id.clone();
+            let mut args = vec![];
+            for o in &f.args { if o.ty.is_nonnull() && o.default.is_none() { args.push((o.name.clone(), valid_lit(rng, s, &o.ty))); } }
+            let sub = if s.is_composite(f.ty.named()) { Some(vec![Sel::Field { alias: None, name: "__typename".into(), args: vec![], dirs: vec![], sub: None }]) } else { None };
+            let mut body = vec![Sel::Field { alias: Some("of".into()), name: f.name.clone(), args, dirs: vec![], sub }];
+            if rng.chance(1, 2) { body.insert(0, Sel::Field { alias: None, name: "__typename".into(), args: vec![], dirs: vec![], sub: None }); }
+            let object = sl.parent.clone().unwrap();
+            let place = rng.below(3);
+            let new = match place {
+                0 => Sel::Inline { cond: Some(iface.clone()), dirs: vec![], sub: body },
+                1 => { let n = format!("FO{}", doc.frags.len()); doc.frags.push(Frag { name: n.clone(), cond: iface.clone(), dirs: vec![], sel: body }); Sel::Spread { name: n, dirs: vec![] } }
+                _ => {
+                    // through a fragment on the object type
+                    let n = format!("FO{}", doc.frags.len());
+                    let g = format!("FP{}", doc.frags.len());
+                    doc.frags.push(Frag { name: n.clone(), cond: iface.clone(), dirs: vec![], sel: body });
+                    doc.frags.push(Frag { name: g.clone(), cond: object.clone(), dirs: vec![], sel: vec![Sel::Spread { name: n, dirs: vec![] }] });
+                    Sel::Spread { name: g, dirs: vec![] }
+                }
+            };
+            let sels = sels_at_mut(doc, &id);
+            let at = rng.below(sels.len() + 1);
+            sels.insert(at, new);
+            Some(Fault { rule: "fields_exist", what: format!("{} (a field of {} only) selected in a fragment on interface {} ({}) at {}", f.name, object, iface,
+                                                             match place { 0 => "inline", 1 => "named", _ => "named, through a fragment on the object" }, describe(doc, &id)), site: Site::Slot(id) })
         }
         "int-out-of-range" => {
             // an Int argument (possibly inside a list) gets a literal outside the signed 32-bit range (/repo commit 556742c)
@@ -1071,6 +1111,7 @@ fn corpus() -> Vec<(&'static str, &'static str, Vec<&'static str>, &'static str)
     const S1: &str = "scalar JSON\nenum E { A B }\ninput In { a: Int b: Int r: String! = \"d\" l: [In!] }\ninput Req { must: Int! opt: Int }\ninterface I { id: ID! self: I }\ninterface J implements I { id: ID! self: I j: Int }\ntype A implements I { id: ID! self: I a(x: Int! = 3, f: Float, ids: [ID!], e: E, i: In, q: Req, j: JSON): Int }\ntype B implements I & J { id: ID! self: I j: Int b: String }\ntype C { c: Int }\nunion U = A | C\nunion V = B | C\ntype Query { i: I j: J a: A u: U v: V n(x: Int!): Int }\ntype Subscription { s: Int t: Int }\ndirective @tag(name: String!) repeatable on FIELD | FRAGMENT_DEFINITION | FRAGMENT_SPREAD | INLINE_FRAGMENT | VARIABLE_DEFINITION | QUERY\ndirective @once(n: Int = 1) on FIELD | QUERY\n";
     const S2: &str = "type User { id: ID! name: String }\ninput Filter { ids: [ID!] matrix: [[Int]] }\ntype Query { me: User users(ids: [ID], filter: Filter): [User] }\ndirective @tag(names: [String!]) on FIELD\n";
     const S3: &str = "type User { id: ID! name: String favorite: Fav }\ntype Post { id: ID! title: String }\nunion Fav = User | Post\ntype Event { id: ID! at: Float }\ninput EvFilter { since: Float owner: ID ids: [ID!] }\ntype Query { me: User first: Fav search(text: String): [Fav!] events(since: Float, until: Float! = 0, filter: EvFilter): [Event] event(id: ID!): Event }\ndirective @since(ts: Float) on FIELD\n";
+    const S4: &str = "type Query { user: User node: Node }\ninterface Node { id: ID! }\ntype User implements Node { id: ID! name: String! }\n";
     vec![
         // known defects
         (S1, "query Q { a { id } }\nfragment U on A { nonexistent }\n", vec![], "a fragment no operation spreads (not validated before commit c67e45e)"),
@@ -1129,6 +1170,11 @@ fn corpus() -> Vec<(&'static str, &'static str, Vec<&'static str>, &'static str)
         (S3, "query { event(id: 76561198000000000) { id } }\n", vec![], "64-bit numeric identifier for an ID argument: valid"),
         (S3, "query { events(filter: { since: 1700000000000, owner: 9007199254740993, ids: 4294967296 }) { id } }\n", vec![], "large integers inside an input object (Float, ID, [ID!] by single-item coercion): valid"),
         (S3, "query { events(filter: { ids: [4294967296, \"x\", 1] }) { id at @since(ts: 1700000000000) } }\n", vec![], "large integers as list items and for a Float directive argument: valid"),
+        // a field selected in a fragment has to exist on the fragment's type condition, whatever the enclosing type
+        (S4, "query { user { ... on Node { name } } }\n", vec![], "object-only field in an inline fragment on an interface, object scope"),
+        (S4, "query { user { ...F } }\nfragment F on Node { id name }\n", vec![], "object-only field in a named fragment on an interface, spread in an object scope"),
+        (S4, "query { user { ...G } }\nfragment G on User { ...F }\nfragment F on Node { name }\n", vec![], "the same through a fragment on the object"),
+        (S4, "query { user { ... on Node { id ... on User { name } } ...F } node { ...F } }\nfragment F on Node { id }\n", vec![], "interface fragments in an object scope selecting interface fields: valid"),
     ]
 }
 
